@@ -64,6 +64,7 @@ fn mach<T: Pl>(kind: TaskKind, specs: Vec<EpSpec>, max_actions: u32, base: u32) 
             // waitable was ever registered: an executor (C22) matter, kept out
             // of the C18-C20 scenarios
             m.no_early_yield = kind == TaskKind::BlockOn;
+            m.avoid_done_ends = kind == TaskKind::BlockOn;
             Box::pin(m) as BoxFut
         }),
     }
